@@ -23,6 +23,10 @@ CHECKS = {
     text="AbstractOffPolicyAlgorithm.step is traced with the real ReplayBuffer (symbolic insert position) over an uninterpreted environment (bare / TimeLimit with symbolic limit and count; Discrete and Box with symbolic bounds) and an uninterpreted stateful behaviour policy, from an arbitrary carried state; the inserted row (observation acted on, PRE-reset successor observation, chosen action, reward of the clipped action, done, timeout = truncated and not terminated, both policy states), position+1 and the carried env/policy states (reset iff done, fresh keys) are shown equal (unsat) to a reference interpreter written from the statement. reset() and iteration() are traced for a grid of (num_envs, learning_starts, num_steps, buffer_size): per-env positions equal learning_starts after warm-up, advance by num_steps per iteration, capacity buffer_size//num_envs.",
     note="capacity 2, envs <=2 (3 thorough), learning_starts/num_steps small: static grid; env/policy arbitrary total functions; ring semantics beyond the inserted slot are C06; lane independence is C12",
     ref="DESIGN.md §2 C05"),
+ "C19": dict(
+    text="LoggingCallbackStepState.next is traced and decided as one inductive step from an arbitrary state with symbolic smoothing factor, including a ghost-variable invariant linking the accumulators to the sum of rewards / number of steps since the previous episode end (so histories of any length are covered) and per-environment independence under vmap; the real on-/off-policy collection steps are traced with a LoggingCallback attached over an uninterpreted env/policy to show that the reward and done flag reaching the logger are the environment's reward of the executed action and term-or-trunc; on_iteration's ordered backend callback operands equal the means over environments / the cumulative step sum; rollout_scan (max_steps<=4), rollout_while (unwinding 3 with unwinding obligation) and average_reward (2 episodes) equal a reference interpreter of the evaluation episode, deterministic => key-less policy call.",
+    note="evaluation horizons bounded as stated; while-loop episodes of at most 3 steps; backends' own I/O and video recording outside the claim; env/policy arbitrary total functions",
+    ref="DESIGN.md §2 C19"),
 }
 NOT_YET = {}
 NA = {"C18": "file-system I/O and NumPy serialisation of concrete buffers: nothing symbolic to execute (eqx.tree_serialise_leaves crosses into numpy.save, CrossHair realises every input at that boundary); 'fails loudly' is an exception-path property of equinox. See DESIGN.md §2 C18."}
